@@ -204,14 +204,17 @@ def run_cases(prop, reqs, rundir, tag):
     errors = []
     cfg = P.PROPS[prop]
     try:
-        rc, out = run([vh_bin(prop), "exec"], inp=data, timeout=cfg.get("exec_timeout", 1800))
-    except subprocess.TimeoutExpired:
-        rc, out = 124, ""
+        rc, out = run([vh_bin(prop), "exec"], inp=data, timeout=cfg.get("exec_timeout", 900))
+    except subprocess.TimeoutExpired as e:
+        rc, out = 124, (e.output or b"").decode("utf-8", "replace")
     impl = out.split("\n")
     if impl and impl[-1] == "":
         impl.pop()
     if rc != 0:
         errors.append("harness exec exit %s after %d replies" % (rc, len(impl)))
+        # the request being processed when the real code hung / aborted is a failing input
+        if len(impl) < len(reqs):
+            impl.append("FAIL.hang_or_abort=exit%s" % rc)
     try:
         rc, out = run([driver_bin(prop)], inp=data, timeout=cfg.get("exec_timeout", 1800))
     except subprocess.TimeoutExpired:
